@@ -39,6 +39,7 @@ CFG_FLAGS = {
 }
 
 TIER_FEATS = []
+ONLY = None
 _scratch_dirs = []
 
 
@@ -142,6 +143,44 @@ def native_replay(scratch, h, prop_feature, pb, tag, watchdog=120):
     return "error", out
 
 
+def observations_c18(scratch, logdir):
+    """Compile-time facts observed while producing the encodings (not solver queries)."""
+    import subprocess
+    obs, viols = {}, []
+    src = os.path.join(scratch, "obs-repo")
+    subprocess.check_call(["rsync", "-a", "--exclude", "target", "--exclude", ".git", REPO.rstrip("/") + "/", src + "/"])
+    env = dict(os.environ, CARGO_NET_OFFLINE="true", CARGO_TARGET_DIR=os.path.join(scratch, "obs-target"))
+    p = subprocess.run(["cargo", "build", "--offline", "--lib", "--no-default-features", "--features", "serialize"],
+                       cwd=src, env=env, stdout=subprocess.PIPE, stderr=subprocess.STDOUT, text=True)
+    open(os.path.join(logdir, "obs-serialize-nostd.log"), "w").write(p.stdout)
+    refused = p.returncode != 0 and "cannot be enabled when using `no_std`" in p.stdout
+    obs["serialize_without_std_refused_at_compile_time"] = refused
+    if p.returncode == 0:
+        rp_dir = os.path.join(VERIF, "replays", "C18")
+        os.makedirs(rp_dir, exist_ok=True)
+        rp = os.path.join(rp_dir, "serialize-nostd-builds.json")
+        json.dump({"engine": "observation", "property": "C18", "label": "C18.serialize_without_std.refused_at_compile_time",
+                   "what": "cargo build --no-default-features --features serialize succeeded", "how": "cd /repo && cargo build --offline --lib --no-default-features --features serialize  (must fail)"},
+                  open(rp, "w"), indent=1)
+        viols.append(("C18.serialize_without_std.refused_at_compile_time", rp))
+    lib = open(os.path.join(REPO, "src", "lib.rs")).read()
+    obs["forbid_unsafe_code_attribute_present"] = "#![forbid(unsafe_code)]" in lib
+    n_unsafe = 0
+    for f in sorted(os.listdir(os.path.join(REPO, "src"))):
+        if f.endswith(".rs"):
+            txt = re.sub(r"//[^\n]*", "", open(os.path.join(REPO, "src", f)).read())
+            n_unsafe += len(re.findall(r"\bunsafe\b", txt.replace("forbid(unsafe_code)", "")))
+    obs["unsafe_tokens_in_src"] = n_unsafe
+    if not obs["forbid_unsafe_code_attribute_present"] or n_unsafe:
+        rp_dir = os.path.join(VERIF, "replays", "C18")
+        os.makedirs(rp_dir, exist_ok=True)
+        rp = os.path.join(rp_dir, "unsafe.json")
+        json.dump({"engine": "observation", "property": "C18", "label": "C18.no_unsafe_code", "what": json.dumps(obs),
+                   "how": "grep -n unsafe /repo/src/*.rs"}, open(rp, "w"), indent=1)
+        viols.append(("C18.no_unsafe_code", rp))
+    return obs, viols
+
+
 def load_known():
     p = os.path.join(VERIF, "known_findings.json")
     if not os.path.exists(p):
@@ -170,6 +209,8 @@ def run_property(prop, tier, jobs, keep):
     t0 = time.time()
     seed = int(os.environ.get("VERIF_SEED", "0") or 0)
     hs = registry.harnesses(prop, tier)
+    if ONLY:
+        hs = [h for h in hs if ONLY in h.name]
     if tier == "thorough" and "thorough" not in TIER_FEATS:
         TIER_FEATS.append("thorough")
     pm = meta.META[prop]
@@ -186,10 +227,15 @@ def run_property(prop, tier, jobs, keep):
     known = load_known()
 
     # ---- E2 / non-Kani parts
-    if pm.get("e2"):
+    if pm.get("e2") and not ONLY:
         import e2
         er = e2.run(prop, tier, REPO, VERIF, scratch, seed)
         extra_results.append(er)
+
+    observations = None
+    if pm.get("observations") and not ONLY:
+        observations, oviol = observations_c18(scratch, logdir)
+        violations += oviol
 
     # ---- E1
     cfgs = sorted(set(h.cfg for h in hs))
@@ -357,7 +403,8 @@ def run_property(prop, tier, jobs, keep):
         inconclusive += er.get("inconclusive", [])
 
     wall = time.time() - t0
-    write_evidence(prop, tier, seed, hs, results, extra_results, violations, known_hits, inconclusive, wall, build_s, pm)
+    if not ONLY:
+        write_evidence(prop, tier, seed, hs, results, extra_results, violations, known_hits, inconclusive, wall, build_s, pm, observations)
     if keep:
         _scratch_dirs.remove(scratch)
         log("scratch kept at", scratch)
@@ -373,7 +420,7 @@ def run_property(prop, tier, jobs, keep):
     return 0
 
 
-def write_evidence(prop, tier, seed, hs, results, extra, violations, known_hits, inconclusive, wall, build_s, pm):
+def write_evidence(prop, tier, seed, hs, results, extra, violations, known_hits, inconclusive, wall, build_s, pm, observations=None):
     n_checks = sum(results[h.key].n_checks for h in hs)
     covers = set()
     for h in hs:
@@ -409,6 +456,7 @@ def write_evidence(prop, tier, seed, hs, results, extra, violations, known_hits,
             "engine": "Kani 0.68.0 / CBMC 6.11.0 / CaDiCaL" + (" + MIR->SMT (z3 4.8.12, cvc5 1.0)" if extra else ""),
             "harnesses": [dict(results[h.key].to_json(), bounds=h.bounds, cfg=h.cfg, expect_fail=h.expect_fail) for h in hs],
             "e2": extra,
+            "non_solver_observations": observations,
             "functions_encoded": funcs,
             "stubs_in_force": stubs,
             "cbmc_checks": n_checks,
@@ -432,6 +480,14 @@ def write_evidence(prop, tier, seed, hs, results, extra, violations, known_hits,
 
 def do_replay(path):
     d = json.load(open(path))
+    if d.get("engine") == "observation":
+        scratch = mk_scratch()
+        os.makedirs(os.path.join(scratch, "logs"))
+        obs, viols = observations_c18(scratch, os.path.join(scratch, "logs"))
+        log("observations: " + json.dumps(obs))
+        for l, rp in viols:
+            log("VIOLATION property=C18 replay=%s" % rp)
+        return 1 if viols else 0
     if d.get("engine") == "e2":
         import e2
         return e2.replay(d, REPO, VERIF, mk_scratch())
@@ -472,12 +528,15 @@ def main():
     ap.add_argument("--replay")
     ap.add_argument("--jobs", type=int, default=int(os.environ.get("VERIF_JOBS", "12")))
     ap.add_argument("--keep", action="store_true")
+    ap.add_argument("--only", help="(development) restrict to harnesses whose name contains this substring; evidence is not written")
     a = ap.parse_args()
     if a.replay:
         sys.exit(do_replay(a.replay))
     if not a.prop or a.prop not in meta.META:
         log("usage: check <C01..C18> [--tier quick|thorough]")
         sys.exit(2)
+    global ONLY
+    ONLY = a.only
     sys.exit(run_property(a.prop, a.tier, a.jobs, a.keep))
 
 
